@@ -45,14 +45,17 @@ Record cfg := mkCfg
     fix_abort : bool;   (* emitEligibleFrames: select { output <- f ; <-done: return } *)
     werr_buffered : bool; (* relayFrames: writerErr := make(chan error, 1) (as in the original);
                              false = unbuffered: the writer must hand its error to the reader's select *)
-    credit_unlocks : bool }. (* sendWindowUpdates releases destMu on every path (defer Unlock, as in the
-                               original); false = the early `return err` leaves destMu locked *)
+    credit_unlocks : bool; (* sendWindowUpdates releases destMu on every path (defer Unlock, as in the
+                              original); false = the early `return err` leaves destMu locked *)
+    data_errs_propagate : bool }. (* processFrame returns the error of every sub-step (as in the original);
+                              false = in the DATA case the errors of sendWindowUpdates and of the stream
+                              processor's Data are assigned to a shadowing variable and lost *)
 
-Definition cfg_orig : cfg := mkCfg false false false true true.
-Definition cfg_fixed : cfg := mkCfg true true true true true.
+Definition cfg_orig : cfg := mkCfg false false false true true true.
+Definition cfg_fixed : cfg := mkCfg true true true true true true.
 Definition cfg_src : cfg :=
   mkCfg src_closes_upstream src_done_signal src_emit_abortable (negb (Nat.eqb writer_err_capacity 0))
-        src_destmu_released_on_every_path.
+        src_destmu_released_on_every_path src_processframe_errors_reach_return.
 
 Definition cap : nat := output_channel_size.
 
@@ -65,7 +68,11 @@ Inductive kind :=
                                    emit up to k of the peer's queued frames into the peer's output;
                                    post: SETTINGS is then written to the destination *)
 | KDirect                       (* PING, GOAWAY, SETTINGS ack: written directly under destMu *)
-| KBad.                         (* protocol error: ReadFrame error, unknown frame type, bad HPACK *)
+| KBad                          (* protocol error: ReadFrame error, unknown frame type, bad HPACK, a stream
+                                   processor rejecting Header/RSTStream/PushPromise/Priority *)
+| KDataBad.                     (* a DATA frame whose stream processor's Data returns an error (scripted processor,
+                                   gRPC adapter given an undecodable message); the credit write that precedes it
+                                   is not modelled separately for this kind *)
 
 Inductive rres := RFrame (f : kind) | REnd.          (* REnd: io.EOF or any read error *)
 Inductive rfst := RFBlocked | RFPosted (r : rres) | RFGone.
@@ -152,7 +159,7 @@ Definition blocks (s : state) (x : side) : bool :=
 Definition is_emit_on (r : rpc) (t : side) : bool :=
   match r with REmit t' _ _ => side_eqb t t' | _ => false end.
 
-Definition is_bad (f : kind) : bool := match f with KBad => true | _ => false end.
+Definition is_bad (f : kind) : bool := match f with KBad | KDataBad => true | _ => false end.
 
 Inductive label :=
 (* environment *)
@@ -271,6 +278,9 @@ Definition step (c : cfg) (s : state) (l : label) : option state :=
       match rd x, rf x with
       | RSel, RFPosted REnd => Some (setd s d (with_rd_rf x RDoneSend RFGone))
       | RSel, RFPosted (RFrame KBad) => Some (setd s d (with_rd_rf x RDoneSend RFGone))
+      | RSel, RFPosted (RFrame KDataBad) =>
+          Some (setd s d (if data_errs_propagate c then with_rd_rf x RDoneSend RFGone
+                          else with_rd_rf x RSel RFBlocked))   (* error lost: the frame is dropped, the loop goes on *)
       | RSel, RFPosted (RFrame KDirect) => Some (setd s d (with_rd_rf x (RDPend (other d) false None) RFGone))
       | RSel, RFPosted (RFrame (KOwn pre k)) =>
           let k' := Nat.min k (S (queued x)) in
@@ -343,8 +353,12 @@ Definition step (c : cfg) (s : state) (l : label) : option state :=
           if blocks s t || dleak s t then None
           else if wf then
             (if may_fail s t
-             then let s1 := exit_failed s d in
-                  Some (if credit && negb (credit_unlocks c) then set_dleak s1 t else s1)
+             then if credit && negb (data_errs_propagate c)
+                  then (* the error is lost: the DATA frame is dropped and the loop goes on *)
+                       Some (set_trig (setd s d (mkD RSel (wr x) (wfailed x) (werr x) (chan x) (Nat.pred (queued x))
+                                                     RFBlocked (inflight x))))
+                  else let s1 := exit_failed s d in
+                       Some (if credit && negb (credit_unlocks c) then set_dleak s1 t else s1)
              else None)
           else Some (setd s d (match cont with
                                | Some k => with_rd x (RLock d false k)
